@@ -82,6 +82,7 @@ Verdict == [ refused      |-> Refused,
              stall        |-> shEarly,
              lateput      |-> (latePut \/ BlockedPut),
              leak         |-> Unfinished,
+             leakAt       |-> {<<p, pc[p]>> : p \in Unfinished},
              wire         |-> Len(wireSeq) ]
 
 NextTrace ==
